@@ -907,4 +907,204 @@ example : ((run (init [[.holdWrite 5, .unhold], [.read]]) [0, 0, 1]).ps 1).resul
 
 end Sig
 
+/-! ## memo graphs: the `Check` arm, mark propagation and the lock order between memos -/
+namespace Graph
+
+/-- `a = s + 1`, `b = a + 1` -/
+def chain : List Def := [{ f := .add 1, reads := [.sig] }, { f := .add 1, reads := [.memo 0] }]
+
+/-- `zero = s * 0`, `plus1 = s + 1`, `sum = zero + plus1` (seed r2-3's graph) -/
+def diamond : List Def :=
+  [{ f := .mul 0, reads := [.sig] }, { f := .add 1, reads := [.sig] }, { f := .plus, reads := [.memo 0, .memo 1] }]
+
+set_option maxRecDepth 100000 in
+/-- **F-C19-6 (repaired)**: ABBA between a memo dropping its sources and its source notifying it.
+Thread 0 (`set 2; b.get()`) is re-running `b` and parked at `sources:clearing`: with the old code
+it holds `b`'s write lock and needs `a`'s (`remove_subscriber`).  Thread 1 (`set 3`) is in
+`a.mark_subscribers_check`: it holds `a`'s read lock and needs `b`'s write lock (`b.mark_check`).
+Old code: both threads blocked for ever.  Repaired code (`clear_sources` unsubscribes after
+releasing its own lock): the same schedule runs to completion and every memo ends on the current
+signal value.  Replayed on the real code by corpus/C19/graph.ops. -/
+theorem C19_graph_abba_deadlock_witness :
+    let sched : List ThreadId := [0, 0, 0, 0, 0, 0, 0, 0, 0, 0, 0, 0, 1, 0, 1]
+    let progs : List (List Op) := [[.set 2, .get 1], [.set 3]]
+    (let s := run (initCleanOld chain true true progs) sched
+     allFinished s 2 = false ∧ (s.ts 0).inflight = true ∧ (s.ts 1).inflight = true ∧
+     (s.ms 1).w = some 0 ∧ (s.ms 0).r = [1]) ∧
+    (let s := run (initClean chain true true progs) (sched ++ tail 2)
+     allFinished s 2 = true ∧ ((readAll s).ts 2).results = [.val 4, .val 5] ∧ s.sig = 3) := by
+  decide
+
+/-- the lock-order fact behind the repair, on the machine: with the repaired `clear_sources` the
+step that unsubscribes from a source is taken with the subscriber's own lock free -/
+theorem C19_graph_clear_releases_own_lock (s : State) (t m : Nat) (old : Option Nat) (rest : List Frame)
+    (hf : (s.ts t).frames = .uclearLock m old :: rest) (hc : s.clearHolds = false) (s' : State)
+    (he : exec s t = some s') : (s'.ms m).w = none := by
+  unfold exec at he
+  simp only [hf] at he
+  split at he
+  · cases he
+  · cases he
+    simp [setT, setM, upd, hc]
+
+set_option maxRecDepth 100000 in
+/-- **The `Check` arm re-reads its own state between sources (seed r2-3's schedule).**  Thread 0
+gets `sum` (state Check) and has just re-run its first source `zero` (unchanged, `memo:released`)
+when thread 1 gets `plus1`, which recomputes and marks `sum` dirty.  `plus1.update_if_necessary()`
+then returns false for thread 0, and only `reactivity.read().state == Dirty` makes it recompute:
+it answers 3, and so does everybody afterwards. -/
+theorem C19_graph_check_sees_cross_thread_dirty :
+    let s := run (initClean diamond true false [[.set 2, .get 2], [.get 1]])
+      ([0, 0, 0, 0, 0, 0, 0, 0, 1, 1, 1, 1, 1, 1, 1, 1] ++ tail 2)
+    (s.ts 0).results = [.unit, .val 3] ∧ (s.ts 1).results = [.val 3] ∧
+    ((readAll s).ts 2).results = [.val 0, .val 3, .val 3] := by
+  decide
+
+set_option maxRecDepth 100000 in
+/-- the single-threaded way into the same re-check: an unchanged intermediate read first -/
+example :
+    let coarse : List Def := [{ f := .add 0, reads := [.sig] }, { f := .div 100, reads := [.memo 0] },
+      { f := .plus, reads := [.memo 1, .memo 0] }]
+    let s := run (initClean coarse true false [[.set 2, .get 2]]) (tail 1)
+    (s.ts 0).results = [.unit, .val 2] := by decide
+
+end Graph
+
+/-! ## concurrent `notify_subs` -/
+namespace Notify
+
+/-- invariant of the repaired code: `Notifying` is owned by a call that saved a real state -/
+def Inv (s : State) : Prop :=
+  s.guardRestore = true ∧
+  (s.dstate = .notifying → ∃ t, (s.cs t).pc = .drained ∧ (s.cs t).prev ≠ .notifying)
+
+theorem inv_init (k : Nat) : Inv (init true k) := by
+  constructor <;> simp [init]
+
+theorem inv_step (s : State) (t : ThreadId) (h : Inv s) : Inv (step s t) := by
+  obtain ⟨hg, hn⟩ := h
+  unfold step
+  simp only []
+  cases hpc : (s.cs t).pc <;> simp only []
+  · -- start
+    refine ⟨hg, fun hd => ?_⟩
+    obtain ⟨u, hu1, hu2⟩ := hn hd
+    refine ⟨u, ?_, ?_⟩ <;> (simp only [upd]; split <;> simp_all)
+  · -- entered
+    refine ⟨hg, fun hd => ?_⟩
+    obtain ⟨u, hu1, hu2⟩ := hn hd
+    refine ⟨u, ?_, ?_⟩ <;> (simp only [upd]; split <;> simp_all)
+  · -- stored: replace
+    refine ⟨hg, fun _ => ?_⟩
+    by_cases hd : s.dstate = .notifying
+    · obtain ⟨u, hu1, hu2⟩ := hn hd
+      have hut : u ≠ t := by intro h; subst h; rw [hpc] at hu1; cases hu1
+      exact ⟨u, by simp [upd, hut, hu1], by simp [upd, hut, hu2]⟩
+    · exact ⟨t, by simp [upd], by simp [upd, hd]⟩
+  · -- drained: restore
+    refine ⟨hg, ?_⟩
+    simp only [hg, Bool.true_and]
+    by_cases hp : (s.cs t).prev = .notifying
+    · simp only [hp, beq_self_eq_true, ↓reduceIte]
+      intro hd
+      obtain ⟨u, hu1, hu2⟩ := hn hd
+      have hut : u ≠ t := by intro h; subst h; exact hu2 hp
+      exact ⟨u, by simp [upd, hut, hu1], by simp [upd, hut, hu2]⟩
+    · have : ((s.cs t).prev == DSt.notifying) = false := by simpa using hp
+      simp only [this, Bool.false_eq_true, ↓reduceIte]
+      intro hd; exact absurd hd hp
+  · -- post
+    split
+    · refine ⟨hg, ?_⟩
+      by_cases hd : s.dstate = .notifying
+      · simp only [hd, beq_self_eq_true, ↓reduceIte]
+        intro _
+        obtain ⟨u, hu1, hu2⟩ := hn hd
+        have hut : u ≠ t := by intro h; subst h; rw [hpc] at hu1; cases hu1
+        exact ⟨u, by simp [upd, hut, hu1], by simp [upd, hut, hu2]⟩
+      · have : (s.dstate == DSt.notifying) = false := by simpa using hd
+        simp [this]
+    · exact ⟨hg, hn⟩
+  · exact ⟨hg, hn⟩
+
+theorem inv_run (sched : List ThreadId) : ∀ s, Inv s → Inv (run s sched) := by
+  induction sched with
+  | nil => intro s h; exact h
+  | cons t ts ih => intro s h; exact ih _ (inv_step s t h)
+
+/-- **No stuck `Notifying` (repaired code), all interleavings.**  For any number of threads
+calling `notify_subs` on one async derived and every interleaving of their steps: whenever no call
+is between its `replace(state, Notifying)` and its restore, the state is not `Notifying` — so a
+later `mark_dirty` takes effect and the derived loads again. -/
+theorem C19_notify_not_stuck (k : Nat) (sched : List ThreadId) :
+    let s := run (init true k) sched
+    (∀ t, (s.cs t).pc ≠ .drained) → s.dstate ≠ .notifying := by
+  intro s hq hd
+  obtain ⟨t, ht, _⟩ := (inv_run sched _ (inv_init k)).2 hd
+  exact hq t ht
+
+/-- **F-C19-7 (repaired)**: the derived's task (thread 0) and `derived.notify()` (thread 1) overlap:
+0 replaces (saves Clean), 1 replaces (saves Notifying), 0 restores Clean, 1 restores Notifying.
+Old code: everybody has returned, the state is `Notifying`, the write of the source is ignored
+(`reloaded = false`).  Repaired code, same schedule: the derived reloads.  Replayed on the real
+code by corpus/C19/derived.ops. -/
+theorem C19_notify_stuck_witness :
+    let sched : List ThreadId := [0, 0, 0, 1, 1, 1, 0, 1, 0]
+    (let s := run (init false 1) sched
+     (s.cs 0).pc = .done ∧ (s.cs 1).pc = .done ∧ s.dstate = .notifying ∧ s.reloaded = false) ∧
+    (let s := run (init true 1) sched
+     (s.cs 0).pc = .done ∧ (s.cs 1).pc = .done ∧ s.reloaded = true) := by decide
+
+end Notify
+
+/-! ## awaiting a loaded async derived while it is written -/
+namespace AwaitW
+
+/-- full statement: an awaiter of a loaded derived is never left parked once the writer is done -/
+def C19_await_writer_no_lost_wake_full : Prop :=
+  ∀ (kind polls : Nat) (sched : List ThreadId), lost (run (init kind polls) sched) = false
+
+/-- **F-C19-8**: thread 0 is inside `derived.update(|v| ..)` (value lock write-held); thread 1 polls
+the by-value future: `loading` is false, the read lock is not available, the `(_, Pending)` arm
+returns `Pending` and drops the lock listener; thread 0 finishes (`notify_subs` drains an empty
+waker list).  Thread 1 is never polled again although the value is there.  Replayed on the real
+code by corpus/C19/derived.ops. -/
+theorem C19_await_writer_lost_wake_witness :
+    lost (run (init 1 2) [0, 1, 1, 0]) = true ∧ lost (run (init 2 2) [0, 1, 1, 0]) = true := by decide
+
+theorem C19_await_writer_no_lost_wake_full_false : ¬ C19_await_writer_no_lost_wake_full := by
+  intro h
+  have := h 1 2 [0, 1, 1, 0]
+  revert this; decide
+
+/-- partial: the `ready()` future does not touch the value lock and is never lost this way -/
+theorem C19_await_writer_ready_partial (polls : Nat) (sched : List ThreadId) :
+    lost (run (init 0 polls) sched) = false := by
+  have key : ∀ (sched : List ThreadId) (s : State), s.kind = 0 → s.apc ≠ .parked →
+      (run s sched).apc ≠ .parked := by
+    intro sched
+    induction sched with
+    | nil => intro s _ h; exact h
+    | cons t ts ih =>
+      intro s hk hp
+      apply ih
+      · unfold step
+        match t with
+        | 0 => cases hw : s.wpc <;> simp [hk]
+        | 1 =>
+          simp only []
+          cases ha : s.apc <;> simp_all <;> (repeat' split) <;> simp_all
+        | _ + 2 => simp [hk]
+      · unfold step
+        match t with
+        | 0 => cases hw : s.wpc <;> simp [hp]
+        | 1 =>
+          simp only []
+          cases ha : s.apc <;> simp_all <;> (repeat' split) <;> simp_all
+        | _ + 2 => simp [hp]
+  have := key sched (init 0 polls) (by simp [init]) (by simp [init])
+  simp [lost, this]
+
+end AwaitW
+
 end Leptos.Park
